@@ -98,6 +98,7 @@ def explore(label: str, cfg: Dict[str, Any], budget: int, rng: random.Random, ch
                 exist = False
             obs, leaf = rq.dry_run(sim, req)
             gone = rq.addresses_absent(sim, req)
+            pw = rq.documented_power_ok(sim, req)
             status, reason, raised = "", False, None
             try:
                 resp = sim.apply_request(copy.deepcopy(req))
@@ -108,7 +109,7 @@ def explore(label: str, cfg: Dict[str, Any], budget: int, rng: random.Random, ch
                 status = f"raised:{type(e).__name__}"
                 raised = repr(e)
             post = numbering.num(rq.state_digest(sim))
-            events.append(rq.req_event(obs, leaf, True, status, reason, cur, post, "na", isact, exist, gone))
+            events.append(rq.req_event(obs, leaf, True, status, reason, cur, post, "na", isact, exist, gone, pwok=pw))
             meta.append({"request": [str(x)[:60] for x in req], "kind": aname, "mutation": mut, "raised": raised})
             if len(req) > 2 and (any(str(x) in ("uninstall", "delete") for x in req[3:]) or aname in ("node-application-remove", "node-file-delete")):
                 removed_on.add(str(req[2]))
@@ -181,6 +182,7 @@ def explore_after_uninstall(label: str, cfg: Dict[str, Any], rng: random.Random,
         for req, what in seq:
             obs, leaf = rq.dry_run(sim, req)
             gone = rq.addresses_absent(sim, req)
+            pw = rq.documented_power_ok(sim, req)
             status, reason, raised = "", False, None
             try:
                 resp = sim.apply_request(copy.deepcopy(req))
@@ -266,6 +268,48 @@ def explore_declared_off(rng: random.Random, chk: common.Check) -> List[Dict[str
             for e in evs:
                 if e["ev"] == "Tick" or e["exec"]:
                     dig = e["post"]
+    return traces
+
+
+def explore_power_requests(rng: random.Random, chk: common.Check) -> List[Dict[str, Any]]:
+    """Directed histories: power requests at every power state of hosts whose start-up and shut-down durations differ
+    (0 / 3 and 3 / 0: one transition instantaneous, the other timed) - a power request that its documented rule refuses
+    (start-up unless OFF, shut-down and reset unless ON) must not succeed and must change nothing."""
+    traces = []
+    for up, down in ((0, 3), (3, 0), (1, 1)):
+        cfg = scenarios.p2p()
+        for n in cfg["simulation"]["network"]["nodes"]:
+            n["start_up_duration"], n["shut_down_duration"] = up, down
+        game = scenarios.build(cfg)
+        sim = game.simulation
+        numbering = rq.DigestNumbering()
+        events, meta = [], []
+        cur = numbering.num(rq.state_digest(sim))
+        start = cur
+        script = ["shutdown", "startup", "reset", "tick", "startup", "shutdown", "tick", "tick", "tick", "tick", "startup", "reset", "shutdown",
+                  "tick", "startup", "tick", "tick", "tick", "tick", "reset", "startup", "tick", "shutdown", "startup"]
+        script += [rng.choice(["shutdown", "startup", "reset", "tick"]) for _ in range(30)]
+        for what in script:
+            if what == "tick":
+                game.pre_timestep()
+                game.advance_timestep()
+                cur = numbering.num(rq.state_digest(sim))
+                events.append(rq.tick_event(cur))
+                meta.append({"request": "tick"})
+                continue
+            req = ["network", "node", "a", what]
+            obs, leaf = rq.dry_run(sim, req)
+            pw = rq.documented_power_ok(sim, req)
+            resp = sim.apply_request(list(req))
+            status = getattr(resp, "status", None) or "not-a-response"
+            data = getattr(resp, "data", None) or {}
+            post = numbering.num(rq.state_digest(sim))
+            events.append(rq.req_event(obs, leaf, True, status, bool(data.get("reason")) if isinstance(data, dict) else False, cur, post, "na",
+                                       True, True, False, pwok=pw))
+            meta.append({"request": req, "kind": f"node-{what}", "mutation": "wellformed", "raised": None})
+            chk.add_case({"s": f"power:{up}/{down}", "k": what, "st": status, "pw": pw}, nontrivial=True)
+            cur = post
+        traces.append({"cfg": {"dig": start}, "ev": events, "meta": {"scenario": f"power-requests:{up}/{down}", "requests": meta}})
     return traces
 
 
@@ -409,6 +453,7 @@ def explore_tours(seed: int, chk: common.Check, visits: int, facets=("svc", "app
                 req = rq.form(entry["action"], entry["options"])
                 obs, leaf = rq.dry_run(sim, req)
                 gone = rq.addresses_absent(sim, req)
+                pw = rq.documented_power_ok(sim, req)
                 exist = _live(game, facet, entry["action"])
                 status, reason, raised = "", False, None
                 try:
@@ -420,7 +465,7 @@ def explore_tours(seed: int, chk: common.Check, visits: int, facets=("svc", "app
                     status = f"raised:{type(e).__name__}"
                     raised = repr(e)
                 post = numbering.num(rq.state_digest(sim))
-                events.append(rq.req_event(obs, leaf, True, status, reason, cur, post, "na", True, exist, gone))
+                events.append(rq.req_event(obs, leaf, True, status, reason, cur, post, "na", True, exist, gone, pwok=pw))
                 meta.append({"request": [str(x)[:60] for x in req], "kind": entry["action"], "mutation": "wellformed", "raised": raised})
                 chk.add_case({"s": label, "k": entry["action"], "at": state, "st": status}, nontrivial=True)
                 try:
@@ -476,6 +521,7 @@ def main(tier: str, seed: int) -> int:
         n_gone += sum(1 for tr in trs for e in tr["ev"] if e["gone"])
         traces += trs
     traces += explore_declared_off(rng, chk)
+    traces += explore_power_requests(rng, chk)
     if n_gone == 0:
         raise tlc.TLCError("vacuous: no request was addressed to an uninstalled application")
     chk.cov["requests_to_uninstalled_applications"] = n_gone
